@@ -166,24 +166,51 @@ func (h *Hist) bound(isObj, wantObj bool, any bool) []*Node {
 	return out
 }
 
+// Picks have locality: a third of the time the container the previous step worked on is chosen again, so that
+// multi-step interactions on ONE container (Sort, Reverse, Sort; Pop, Pop, Add; Set, Keys, Set) are common.
+func (h *Hist) again(wantObj, any bool) *Node {
+	if h.last != nil && h.last.Impl != nil && (any || h.last.IsObj == wantObj) && h.d.Draw("pick-again", 3) == 0 {
+		return h.last
+	}
+	return nil
+}
+
 func (h *Hist) pickList() *Node {
+	if n := h.again(false, false); n != nil {
+		return n
+	}
 	c := h.bound(false, false, false)
 	if len(c) == 0 {
 		return nil
 	}
-	// bias towards recent and towards small ids (roots)
-	return c[h.d.Draw("pick-list", len(c))]
+	h.last = c[h.d.Draw("pick-list", len(c))]
+	return h.last
 }
 
 func (h *Hist) pickObj() *Node {
+	if n := h.again(true, false); n != nil {
+		return n
+	}
 	c := h.bound(true, true, false)
 	if len(c) == 0 {
 		return nil
 	}
-	return c[h.d.Draw("pick-obj", len(c))]
+	h.last = c[h.d.Draw("pick-obj", len(c))]
+	return h.last
 }
 
 func (h *Hist) pickAny() *Node {
+	if n := h.again(false, true); n != nil {
+		return n
+	}
+	n := h.pickAnyFresh()
+	if n != nil {
+		h.last = n
+	}
+	return n
+}
+
+func (h *Hist) pickAnyFresh() *Node {
 	c := h.bound(false, false, true)
 	if len(c) == 0 {
 		return nil
@@ -776,7 +803,7 @@ func opDelete(h *Hist) {
 		valid = i >= 0 && i < cnt
 	default:
 		// several distinct valid indices, unsorted
-		k := 2 + h.tail("delete-k", 2, 10)
+		k := 2 + h.tail("delete-k", 2, 40)
 		if k > cnt {
 			k = cnt
 		}
@@ -926,6 +953,10 @@ func opSort(h *Hist) {
 		return
 	}
 	n := cands[h.d.Draw("pick-sortable", len(cands))]
+	if h.last != nil && h.last.Impl != nil && !h.last.IsObj && sortable(h.last) && h.d.Draw("pick-again", 2) == 0 {
+		n = h.last
+	}
+	h.last = n
 	h.begin("Sort", "C05", "C17")
 	var ret at.List
 	p, msg := h.call(func() { ret = n.list().Sort() })
@@ -1546,14 +1577,16 @@ func opPureCalls(h *Hist) {
 		other = h.pickList()
 	}
 	var ret any
+	var text string
+	kept := false
 	p, _ := h.call(func() {
 		if n.IsObj {
 			o := n.object()
 			switch name {
 			case "String":
-				_ = o.String()
+				text, kept = o.String(), true
 			case "FormatString":
-				_ = o.FormatString(h.d.Draw("indent", 11))
+				text, kept = o.FormatString(h.d.Draw("indent", 11)), true
 			case "Equals":
 				if h.plain(other) && h.plain(n) {
 					_ = o.Equals(other.object())
@@ -1568,9 +1601,9 @@ func opPureCalls(h *Hist) {
 		l := n.list()
 		switch name {
 		case "String":
-			_ = l.String()
+			text, kept = l.String(), true
 		case "FormatString":
-			_ = l.FormatString(h.d.Draw("indent", 11))
+			text, kept = l.FormatString(h.d.Draw("indent", 11)), true
 		case "Equals":
 			if h.plain(other) && h.plain(n) {
 				_ = l.Equals(other.list())
@@ -1588,6 +1621,12 @@ func opPureCalls(h *Hist) {
 		}
 	})
 	h.tracef("%s.%s() panicked=%v", n.Name, name, p)
+	if kept && !p && len(h.natives) < 16 {
+		// the returned text is a plain Go value that must stay what it was (a result owns its storage)
+		nv := h.newNative(text, string(append([]byte(nil), text...)), name, false)
+		h.relate(-nv.ID-1, n.ID, "native:"+name)
+		h.counters["probe:text-kept-as-heap-citizen"]++
+	}
 	if name == "ForEach" && !p {
 		h.curOwner = h.ownerOf(n)
 		h.checkRet(ret, n)
@@ -1753,8 +1792,10 @@ func opSet(h *Hist) {
 		if i == faultAt {
 			switch fault {
 			case 2:
-				args = append(args, 42, gv)
-				desc = append(desc, "42(non-string key)")
+				type named string
+				bad := []any{42, []byte(key), 'x', nil, &key, named(key), 1.5, true, []string{key}, fmt.Stringer(nil)}[h.d.Draw("bad-key", 10)]
+				args = append(args, bad, gv)
+				desc = append(desc, fmt.Sprintf("%T(non-string key)", bad))
 				continue
 			case 3:
 				args = append(args, key, rejectedValue(h.d))
@@ -2369,8 +2410,8 @@ func opNewDeep(h *Hist) {
 // Every sub-step is checked on the target (content and returned identity); the whole heap is checked at the end.
 func opBurst(h *Hist) {
 	n := h.pickAny()
-	if n == nil {
-		return
+	if n == nil || len(n.Elems) > 600 || len(n.Fields) > 600 {
+		return // every sub-step is checked in full: quadratic on the huge containers of other size classes
 	}
 	m := 4 + h.d.Draw("burst-n", 12)
 	switch h.d.Draw("burst-tail", 6) {
